@@ -101,6 +101,7 @@ func (s *State) clone() *State {
 }
 
 type Exec struct {
+	sprintfInj map[string]bool // injectivity axioms already stated (Sprintf with a single %d)
 	stamps bool // record the forwarding ghost (see chanRecv/chanSend)
 	boxAxioms map[string]bool
 	cntMarkAx bool
